@@ -22,13 +22,26 @@ type xNest struct {
 	Vals []int64
 }
 
+// (fields in the order of their names: the schema of a merge, which orders
+// columns by name, is then the schema of its inputs and the chunk-level paths
+// of WriteRowGroup apply to merged sources too)
 type XRow struct {
-	ID int64
-	S  string `parquet:",dict"`
-	O  *string
-	L  []int32
 	F  float64
+	ID int64
+	L  []int32
 	N  []xNest // leaf N.Vals has two repeated ancestors
+	O  *string
+	S  string `parquet:",dict"`
+}
+
+// c11EvenID: rows whose ID (column 1: F comes first) is even.
+func c11EvenID(r parquet.Row) bool {
+	for _, v := range r {
+		if v.Column() == 1 {
+			return v.Int64()%2 == 0
+		}
+	}
+	return false
 }
 
 func xrowString(r XRow) string {
@@ -81,6 +94,7 @@ func c11Rows(lo, hi int, longList bool) []XRow {
 
 // c11Config is a writer configuration from the reduced lattice.
 type c11Config struct {
+	sorting bool
 	desc    []string
 	opts    []parquet.WriterOption
 	maxRows int64
@@ -112,7 +126,10 @@ func chooseC11Config(x *engine.X, label string) *c11Config {
 		c.stats = true
 		add("stats", parquet.DataPageStatistics(true))
 	}
-	switch x.Deviate(3, label+".bloom") {
+	switch x.Deviate(4, label+".bloom") {
+	case 3: // the filters wait in buffers for Close
+		c.bloom = true
+		add("bloom10+deferred", parquet.BloomFilters(parquet.SplitBlockFilter(10, "ID"), parquet.SplitBlockFilter(10, "S")), parquet.DeferBloomFiltersWithBuffers(parquet.NewBufferPool()))
 	case 1:
 		c.bloom = true
 		add("bloom10", parquet.BloomFilters(parquet.SplitBlockFilter(10, "ID"), parquet.SplitBlockFilter(10, "S")))
@@ -128,6 +145,11 @@ func chooseC11Config(x *engine.X, label string) *c11Config {
 		c.maxRows = 14
 		add("maxrows14", parquet.MaxRowsPerRowGroup(14))
 	}
+	if label == "dst" && x.Deviate(2, label+".sorting") == 1 {
+		// the destination declares the order the sources are in (ascending ID)
+		c.sorting = true
+		add("sorted", parquet.SortingWriterConfig(parquet.SortingColumns(parquet.Ascending("ID"))))
+	}
 	switch x.Deviate(3, label+".dictmax") {
 	case 1:
 		add("dictmax1+pagebuf1", parquet.DictionaryMaxBytes(1), parquet.PageBufferSize(1))
@@ -139,7 +161,10 @@ func chooseC11Config(x *engine.X, label string) *c11Config {
 
 var c11Sources = []string{"file", "file(2rg)->multi", "buffer", "merge(disjoint)", "merge(overlap)", "merge(dedupe)", "convert(identity)", "convert(drop+add)", "foreign(filter)", "file(longlist)",
 	// a wrapper that EMBEDS the concrete *parquet.FileRowGroup (and so inherits every method of it, exported or not) and overrides Rows()
-	"foreign(embeds *FileRowGroup)"}
+	"foreign(embeds *FileRowGroup)",
+	// a deduplicating merge of inputs with disjoint key ranges (each is a segment
+	// of its own) that hold duplicate keys inside
+	"merge(dedupe,disjoint)"}
 
 // filteredRowGroup is a foreign RowGroup implementation: it exposes the file's
 // column chunks but its Rows() only yields rows with even ID.
@@ -269,9 +294,12 @@ func c11Run(x *engine.X) {
 		b := parquet.NewGenericBuffer[XRow]()
 		b.Write(rows)
 		rg, expect = b, rows
-	case "merge(disjoint)", "merge(overlap)", "merge(dedupe)":
+	case "merge(disjoint)", "merge(overlap)", "merge(dedupe)", "merge(dedupe,disjoint)":
 		a, b := c11Rows(0, 6, false), c11Rows(6, 12, false)
-		if source != "merge(disjoint)" {
+		if source == "merge(dedupe,disjoint)" {
+			a = append(a[:2:2], append([]XRow{a[1], a[1]}, a[2:]...)...)
+			b = append(b[:4:4], append([]XRow{b[3]}, b[4:]...)...)
+		} else if source != "merge(disjoint)" {
 			a, b = nil, nil
 			for _, r := range c11Rows(0, 12, false) {
 				if r.ID%2 == 0 {
@@ -300,7 +328,7 @@ func c11Run(x *engine.X) {
 		var ins []parquet.RowGroup
 		ins = append(ins, fa.RowGroups()...)
 		ins = append(ins, fb.RowGroups()...)
-		m, err := parquet.MergeRowGroups(ins, parquet.SortingRowGroupConfig(parquet.SortingColumns(parquet.Ascending("ID")), parquet.DropDuplicatedRows(source == "merge(dedupe)")))
+		m, err := parquet.MergeRowGroups(ins, parquet.SortingRowGroupConfig(parquet.SortingColumns(parquet.Ascending("ID")), parquet.DropDuplicatedRows(strings.HasPrefix(source, "merge(dedupe"))))
 		if err != nil {
 			fail(err)
 			return
@@ -308,7 +336,7 @@ func c11Run(x *engine.X) {
 		rg = m
 		all := append(append([]XRow{}, a...), b...)
 		sort.SliceStable(all, func(i, j int) bool { return all[i].ID < all[j].ID })
-		if source == "merge(dedupe)" {
+		if strings.HasPrefix(source, "merge(dedupe") {
 			expect = nil // checked by key set below
 			_ = all
 		} else {
@@ -378,7 +406,7 @@ func c11Run(x *engine.X) {
 			fail(fmt.Errorf("row group of a file is a %T", f.RowGroups()[0]))
 			return
 		}
-		rg = &embeddingRowGroup{FileRowGroup: frg, keep: func(r parquet.Row) bool { return r[0].Int64()%2 == 0 }}
+		rg = &embeddingRowGroup{FileRowGroup: frg, keep: c11EvenID}
 		for _, r := range rows {
 			if r.ID%2 == 0 {
 				expect = append(expect, r)
@@ -391,7 +419,7 @@ func c11Run(x *engine.X) {
 			fail(err)
 			return
 		}
-		rg = &filteredRowGroup{RowGroup: f.RowGroups()[0], keep: func(r parquet.Row) bool { return r[0].Int64()%2 == 0 }}
+		rg = &filteredRowGroup{RowGroup: f.RowGroups()[0], keep: c11EvenID}
 		for _, r := range rows {
 			if r.ID%2 == 0 {
 				expect = append(expect, r)
@@ -538,7 +566,11 @@ func c11Run(x *engine.X) {
 	}
 	_ = nA
 	// well-formedness + destination configuration honoured (compared with the row-path file)
-	checkFileAgainstSpec(x, shape, dataA, nil, dstCfg.maxRows, srcSorting...)
+	var wantSorting []parquet.SortingColumn
+	if dstCfg.sorting {
+		wantSorting = []parquet.SortingColumn{parquet.Ascending("ID")}
+	}
+	checkFileAgainstSpec(x, shape, dataA, wantSorting, dstCfg.maxRows, srcSorting...)
 	if x.Failed() {
 		return
 	}
